@@ -129,6 +129,12 @@ Proof.
   - apply fine_try; assumption.
   - apply fine_guard. intros p Hp. split; [discriminate|]. unfold rest_of; simpl; lia.
   - intros p Hp. split; [discriminate|]. unfold rest_of; simpl; lia.
+  - (* with self.lock *)
+    intros p Hp. destruct (IHs p Hp) as [B1 B2].
+    assert (Hrel : fine fuel (fun q : path => (ONormal, [(ln, KRel)], q))).
+    { intros q Hq. split; [discriminate|]. unfold rest_of; simpl; lia. }
+    destruct (fine_fstage fuel (exec fm fuel s p) _ (List.length p) Hrel Hp B1 B2) as [G1 G2].
+    unfold pre, out_of, rest_of in *; simpl. split; assumption.
 Qed.
 
 Lemma run_no_fuel fm s p : out_of (run fm s p) <> OFuel.
@@ -391,6 +397,12 @@ Proof.
     exists a1. unfold evs_of, out_of; simpl. rewrite E. split; [reflexivity|left; reflexivity].
   - intros Hok _. destruct (tf a0 (KAct XLocal)) as [a1|] eqn:E; [|discriminate].
     exists a1. unfold evs_of, out_of; simpl. rewrite E. split; [reflexivity|left; reflexivity].
+  - (* with self.lock *)
+    destruct (tf a0 KAcq) as [a1|] eqn:E; [|intros Hok; discriminate].
+    apply (good_pre a0 a1 _ ln _ _ E).
+    apply good_fstage; [apply IHs|].
+    intros ax q Hok _. destruct (tf ax KRel) as [a2|] eqn:E2; [|discriminate].
+    exists a2. unfold evs_of, out_of; simpl. rewrite E2. split; [reflexivity|left; reflexivity].
 Qed.
 
 End Sound.
@@ -420,28 +432,47 @@ Qed.
 (* the lock automaton and the readable `balanced` *)
 Definition b2n (h : bool) : N := if h then 1 else 0.
 
+Lemma lockA_step h k a' :
+  lockA (b2n h) k = Some a' ->
+  is_relock k = false /\
+  match k with
+  | KAcq => h = false /\ a' = 1
+  | KRel => h = true /\ a' = 0
+  | _ => a' = b2n h
+  end.
+Proof.
+  unfold lockA. destruct (is_relock k) eqn:Er; [discriminate|]. intro H. split; [reflexivity|].
+  destruct k; destruct h; simpl in H; try discriminate; inversion H; auto.
+Qed.
+
 Lemma lockA_balanced : forall evs h, accept lockA (b2n h) evs = Some 0 -> balanced_from h evs = true.
 Proof.
   induction evs as [|[ln k] evs IH]; intros h H.
   - destruct h; simpl in *; [discriminate|reflexivity].
-  - simpl in H. destruct k; simpl in *.
-    + destruct h; simpl in *; [discriminate|]. apply (IH true). exact H.
-    + destruct h; simpl in *; [|discriminate]. apply (IH false). exact H.
-    + apply IH; exact H.
-    + apply IH; exact H.
-    + apply IH; exact H.
+  - simpl in H. destruct (lockA (b2n h) k) as [a'|] eqn:E; [|discriminate].
+    apply lockA_step in E as [_ E]. destruct k; simpl.
+    + destruct E as [-> ->]. apply (IH true). exact H.
+    + destruct E as [-> ->]. apply (IH false). exact H.
+    + subst a'. apply IH; exact H.
+    + subst a'. apply IH; exact H.
+    + subst a'. apply IH; exact H.
 Qed.
 
-Lemma balanced_lockA : forall evs h, balanced_from h evs = true -> accept lockA (b2n h) evs = Some 0.
+(* the lock object is never replaced along an accepted trace *)
+Lemma lockA_no_relock : forall evs a a', accept lockA a evs = Some a' ->
+  forallb (fun e : event => negb (is_relock (snd e))) evs = true.
 Proof.
-  induction evs as [|[ln k] evs IH]; intros h H.
-  - destruct h; simpl in *; [discriminate|reflexivity].
-  - simpl in *. destruct k; simpl in *.
-    + destruct h; simpl in *; [discriminate|]. apply (IH true). exact H.
-    + destruct h; simpl in *; [|discriminate]. apply (IH false). exact H.
-    + apply IH; exact H.
-    + apply IH; exact H.
-    + apply IH; exact H.
+  induction evs as [|[ln k] evs IH]; intros a a' H; [reflexivity|].
+  simpl in *. destruct (lockA a k) as [a1|] eqn:E; [|discriminate].
+  unfold lockA in E. destruct (is_relock k); [discriminate|]. simpl. apply (IH a1 a'). exact H.
+Qed.
+
+Lemma no_relock_gen : forall pre suf g,
+  forallb (fun e : event => negb (is_relock (snd e))) (pre ++ suf) = true -> lock_gen pre g = g.
+Proof.
+  induction pre as [|[ln k] pre IH]; intros suf g H; [reflexivity|].
+  simpl in *. apply andb_true_iff in H as [H1 H2]. destruct (is_relock k); [discriminate|].
+  apply (IH suf). exact H2.
 Qed.
 
 Lemma balanced_counts : forall evs h, balanced_from h evs = true ->
@@ -481,6 +512,27 @@ Theorem sequences_balanced cs :
 Proof.
   intro H. apply (lockA_balanced _ false). simpl.
   induction cs as [|c cs IH]; [reflexivity|].
+  unfold run_calls in *. simpl. rewrite accept_app.
+  destruct (meth_ok_sound lockA AllFaults 0 (fst c) (H c (or_introl eq_refl)) (snd c)) as [_ A].
+  rewrite A. apply IH. intros c' Hin. apply H. right; exact Hin.
+Qed.
+
+(* lock identity: along every path of a method that passes lock_ok, at every point of the trace the lock
+   object is still the one the store was created with (no assignment to self.lock, no re-run of __init__) *)
+Theorem lock_identity_constant m :
+  lock_ok m = true ->
+  forall p pre suf g, evs_of (run AllFaults m p) = pre ++ suf -> lock_gen pre g = g.
+Proof.
+  intros H p pre suf g E. destruct (meth_ok_sound lockA AllFaults 0 m H p) as [_ A].
+  apply (no_relock_gen pre suf). rewrite <- E. apply (lockA_no_relock _ 0 0). exact A.
+Qed.
+
+Theorem sequences_lock_identity cs :
+  (forall c, In c cs -> lock_ok (fst c) = true) ->
+  forall pre suf g, run_calls cs = pre ++ suf -> lock_gen pre g = g.
+Proof.
+  intros H pre suf g E. apply (no_relock_gen pre suf). rewrite <- E. apply (lockA_no_relock _ 0 0).
+  clear E. induction cs as [|c cs IH]; [reflexivity|].
   unfold run_calls in *. simpl. rewrite accept_app.
   destruct (meth_ok_sound lockA AllFaults 0 (fst c) (H c (or_introl eq_refl)) (snd c)) as [_ A].
   rewrite A. apply IH. intros c' Hin. apply H. right; exact Hin.
